@@ -237,8 +237,8 @@ def _c15(seed, quick):
 
 def _c18(seed, quick):
     plan = {
-        "shards": conc_shards("C18", seed, "stress", 3 if quick else 60, 60 if quick else 500, shards=12, extra=["--ops", "2500" if quick else "20000"])
-                  + conc_shards("C18", seed, "shutdown", 100 if quick else 5000, 40 if quick else 400, shards=4),
+        "shards": conc_shards("C18", seed, "stress", 6 if quick else 60, 60 if quick else 500, shards=12, extra=["--ops", "2500" if quick else "20000"])
+                  + conc_shards("C18", seed, "shutdown", 400 if quick else 20000, 40 if quick else 400, shards=4),
         "rule": "8-16 threads x thousands of operations of every type (7 read variants, multi-key reads, 4 put variants, TTL upserts, weight upserts, deletes, a "
                 "shutdown mid-run in a third of the cases, calls back into the cache from the mapping function of map_get and between two items of a multi-key iterator) on 1-4 keys with 2 shards, queue 1, pool 1 x buffer 1, evictions on nearly every put, sweeps every 1 ms with "
                 "the clock advancing, seeded delays at the lock-holding sites. distinct = interleaving signature (hash of the (thread, schedule point) sequence).",
